@@ -235,6 +235,9 @@ func C01(r *core.Run) {
 	ruleL8(r)
 	rule019(r)
 	rule153(r)
+	rule0210(r, "C01")
+	rule105(r)
+	rule0111(r)
 }
 
 func rule011(r *core.Run) {
@@ -1182,4 +1185,34 @@ func rule0110(r *core.Run) {
 	if n < 2 {
 		r.Unresolved("R01.10: %d success returns with a preceding write found (expected at least 2)", n)
 	}
+}
+
+// rule0111 — the bytes a backend stores are its own.
+func rule0111(r *core.Run) {
+	r.Rule("R01.11", "gofakes3.ReadAll returns memory it allocated itself: no returned slice derives from a type assertion or type switch on the reader argument (handing back the caller's own buffer — a *bytes.Buffer's Bytes/Next — stores memory the caller may reuse; the stored body then changes after the upload was acknowledged while size and ETag still describe the original bytes)")
+	fn := mustFunc(r, "gofakes3.ReadAll")
+	if fn == nil {
+		return
+	}
+	rp := fn.Params[0]
+	bad := ""
+	n := 0
+	for _, ret := range core.Returns(fn) {
+		if len(ret.Results) == 0 {
+			continue
+		}
+		n++
+		s := r.P.SliceOf(ret.Results[0], core.SliceOpts{Depth: -1})
+		for v := range s.Values {
+			ta, ok := v.(*ssa.TypeAssert)
+			if !ok {
+				continue
+			}
+			if ta.X == ssa.Value(rp) || r.P.SliceOf(ta.X, core.SliceOpts{Depth: -1}).HasValue(rp) {
+				bad = pos(r, ta)
+			}
+		}
+	}
+	r.Check(bad == "" && n > 0, "R01.11", key(fname(r, fn), "returned bytes are freshly allocated"), r.P.Pos(fn.Pos()), sprintf("%d returns, none built from the reader's own memory", n),
+		"ReadAll can return bytes obtained from a concrete reader type (type assertion at "+bad+"): the stored body aliases memory the caller still owns")
 }
